@@ -772,8 +772,8 @@ def run(ctx):
         "Orthotropic": "all moduli <> 0, E3*v23^2 < E2 (asserted in _Behavior) and c_ij denominator < 0 (not enforced)"}
     open(os.path.join(ctx.build, "Gen_Pmat.v"), "w").write(gen_p)
     open(os.path.join(ctx.build, "Gen_Laws.v"), "w").write(gen_l)
-    ctx.copy_props("C11/C11_laws.v", "C11/C11_pmat.v", "C11/C11_pmat_norm.v", "C11/C11_aniso.v", "C11/C11_aniso3d.v", "C11/C11_lazy.v", "C11/C11_rot.v")
-    g = ctx.coq(["Gen_Pmat.v", "Gen_Laws.v"], timeout=300, count=False)
+    ctx.copy_props("C11/C11_wf.v", "C11/C11_laws.v", "C11/C11_pmat.v", "C11/C11_pmat_norm.v", "C11/C11_aniso.v", "C11/C11_aniso3d.v", "C11/C11_lazy.v", "C11/C11_rot.v")
+    g = ctx.coq(["Gen_Pmat.v", "Gen_Laws.v", "C11_wf.v"], timeout=300, count=False)
     if not g.ok:
         ctx.obligation("generated-files-compile", False, g.log[-1500:])
         ctx.violation("generated-files", "the regenerated Coq definitions do not compile", {"log": g.log[-3000:]}, found_input=False)
@@ -783,21 +783,21 @@ def run(ctx):
     def job(name, files, timeout=900):
         res[name] = ctx.coq(files, timeout=timeout)
     th = [threading.Thread(target=job, args=("laws", ["C11_laws.v"])),
-          threading.Thread(target=job, args=("pmat", ["C11_pmat.v"])),
-          threading.Thread(target=job, args=("lazy", ["C11_lazy.v"]))]
+          threading.Thread(target=job, args=("pmat", ["C11_pmat.v", "C11_pmat_norm.v"])),
+          threading.Thread(target=job, args=("lazy", ["C11_lazy.v"])),
+          threading.Thread(target=job, args=("aniso", ["C11_aniso.v"])),
+          threading.Thread(target=job, args=("aniso3d", ["C11_aniso3d.v"])),
+          threading.Thread(target=job, args=("rot", ["C11_rot.v"]))]
     for t in th:
         t.start()
     for t in th:
         t.join()
-    if res["pmat"].ok:
-        th = [threading.Thread(target=job, args=("norm", ["C11_pmat_norm.v"])),
-              threading.Thread(target=job, args=("aniso", ["C11_aniso.v"])),
-              threading.Thread(target=job, args=("aniso3d", ["C11_aniso3d.v"])),
-              threading.Thread(target=job, args=("rot", ["C11_rot.v"]))]
-        for t in th:
-            t.start()
-        for t in th:
-            t.join()
+    # C11_pmat_norm.v is compiled right after C11_pmat.v; tell the two apart
+    if res["pmat"].failed_file == "C11_pmat_norm.v":
+        res["norm"] = res["pmat"]
+        res["pmat"] = common.CoqResult()
+    elif res["pmat"].ok:
+        res["norm"] = res["pmat"]
     ctx.sample({"theorem": "iso_spd_3d : forall r2 E v, r2*r2 = 2 -> iso_ok E v -> posdef (iso_3d_C r2 E v) 6",
                 "proof": "closed form by field, then the proved block Sylvester criterion posdef_block33_diag"})
     ctx.sample({"theorem": "pmat3_orthogonal : forall axes r2, r2*r2=2 -> unit_orth3 axes -> P P^T = I /\\ P^T P = I", "proof": "nsatz, 72 entries"})
